@@ -105,6 +105,19 @@ def step (_ : Unit) (j : Json) : Except String (Unit × Json × List Fired) := d
       -- model consistency: the rebuilt message is cometbft's canonical vote
       if msg != canonicalVoteBytes hd.height round cHash total psh sec nanos hd.chainID then
         fired := fired ++ [{ name := "vote_bytes_not_canonical_vote", detail := mkObj [("msg", js (toHex msg))] }]
+  -- model consistency: every inner op of the node's proof is an IAVL inner node with the proven child cut out (the shape
+  -- `iavl_path_sound` quantifies over), and the leaf op's prefix is height 0, size 1, the leaf's version
+  match mpaths with
+  | some ps =>
+    let badSteps := (isteps.zip ps).filter fun (s, p) => iavlStep p.height p.size p.version p.sibling p.isDataOnRight != s
+    if !badSteps.isEmpty then
+      fired := fired ++ [{ name := "proof_step_not_an_iavl_inner_node", detail := mkObj [("count", jn badSteps.length)] }]
+  | none => pure ()
+  match mver with
+  | some ver =>
+    if [0, 2] ++ varintNonneg ver != (← jhex iavl "leafPrefix") then
+      fired := fired ++ [{ name := "proof_leaf_prefix_not_an_iavl_leaf", detail := mkObj [("version", jn ver)] }]
+  | none => pure ()
   let sorted := msigs.toArray.qsort (fun a b => bytesLt a.1 b.1) |>.toList
   let mout := match mpaths, mver with
     | some ps, some ver =>
